@@ -4,6 +4,7 @@ import (
 	"fmt"
 	"regexp"
 	"sort"
+	"strconv"
 	"strings"
 )
 
@@ -11,22 +12,33 @@ import (
 
 var groupIdxRe = regexp.MustCompile(`^(.*\[group=.*\])(\d+)$`)
 
+// dotText: how a name or group reads as part of a DOT ID. dig writes IDs with Go's quoting; DOT's own
+// unquoting only turns \" into " and leaves every other backslash sequence as it is, so that is what the ID is -
+// consistently, as long as every occurrence of the ID is written the same way.
+func dotText(s string) string {
+	q := strconv.Quote(s)
+	return strings.ReplaceAll(q[1:len(q)-1], `\"`, `"`)
+}
+
 func dotResultID(k Key) string {
 	t := typeName[k.T]
 	switch {
 	case k.Name != "":
-		return fmt.Sprintf("%v[name=%v]", t, k.Name)
+		return fmt.Sprintf("%v[name=%v]", t, dotText(k.Name))
 	case k.Group != "":
-		return fmt.Sprintf("%v[group=%v]", t, k.Group) // index appended by dig
+		return fmt.Sprintf("%v[group=%v]", t, dotText(k.Group)) // index appended by dig
 	}
 	return t
 }
 
 func dotGroupID(k Key) string {
-	return fmt.Sprintf("[type=%v group=%v]", typeName[k.T], k.Group)
+	return fmt.Sprintf("[type=%v group=%v]", typeName[k.T], dotText(k.Group))
 }
 
 func ctorDotName(f *Fn) string {
+	if f.LocPC > 0 {
+		return fmt.Sprintf("Loc%d", f.LocPC-1)
+	}
 	if f.Pool > 0 {
 		return fmt.Sprintf("P%04d", f.Pool-1)
 	}
